@@ -806,6 +806,8 @@ Example c07_nonvacuous_ebp_layout :
     [mkX 1073750096 2147483664 2147483672; mkX 1073754128 2147483680 2147483904].
 Proof.
   split; [|vm_compute; reflexivity].
-  cbn [ebp_layout]. repeat split; try reflexivity; try (intro Hc; discriminate Hc); try (vm_compute; intro Hc; discriminate Hc);
-    try (vm_compute; reflexivity); try (exists 4; repeat split; try reflexivity; vm_compute; intro Hc; discriminate Hc).
+  cbn [ebp_layout]. cbv zeta.
+  repeat match goal with |- _ /\ _ => split end;
+    try (exists 4; repeat match goal with |- _ /\ _ => split end);
+    try exact I; try (vm_compute; reflexivity); try (vm_compute; intro Hc; discriminate Hc).
 Qed.
